@@ -20,12 +20,16 @@ RULE = ("exhaustive: every DAG on <=3 (quick) / <=4 (thorough) labelled nodes x 
         "name and virtual-evidence lists; each query is run with elimination_order in {greedy, MinFill, MinNeighbors, "
         "MinWeight, WeightedMinFill, random explicit permutation, None} x joint in {True, False}, every case under a "
         "fixed PYTHONHASHSEED.  pgmpy's answer is compared by NAMED assignment with the extracted model (1e-9) and "
-        "the model with the extracted brute-force posterior (exactly).  Non-trivial: >=1 edge or evidence, P(e)>0; "
+        "the model with the extracted brute-force posterior (exactly); sessions: 3-8 queries on ONE engine (roles "
+        "re-split over the same node set, other evidence states, repeats, virtual evidence in between), every answer "
+        "checked.  Non-trivial: >=1 edge or evidence, P(e)>0; "
         "distinct = distinct (network, query, evidence, virtual evidence)")
 TRUSTED_BASE = ["numpy/opt_einsum contraction and DiscreteFactor array primitives are modelled by their documented "
                 "pointwise meaning (Base/RefFactor)",
                 "python set/dict iteration order is the explicit parameter `ord` of the model; results compared as "
                 "named-assignment tables",
+                "session stream: the engine keeps no cross-query state in the code (e568f1b restores the model), so the "
+                "model answer of step k of a session is the single-query answer",
                 "floats are fed as exact dyadic rationals; float rounding is not modelled (1e-9 relative tolerance)"]
 ASSUMPTIONS = ["node and state names are interned to nat by the harness",
                "P(evidence) = 0 is an excluded input (pgmpy returns nan); such cases are generated but not counted",
@@ -145,6 +149,44 @@ def collapse_case(rng, hashseed):
             "hashseed": hashseed}
 
 
+def session_case(rng, hashseed):
+    n = rng.choice([3, 3, 4, 4, 5])
+    shape, edges = shape_dag(rng, n)
+    if rng.random() < 0.4:
+        o = list(range(n))
+        rng.shuffle(o)
+        shape, edges = "chain", [(o[i], o[i + 1]) for i in range(n - 1)]
+    cards = [rng.choice([2, 2, 3]) for _ in range(n)]
+    nstyle = rng.choice(["str", "str", "int", "tuple"])
+    steps = []
+    for k in range(rng.randint(3, 8)):
+        r = rng.random()
+        if steps and r < 0.45:
+            # same node set, roles re-split
+            prev = steps[-1]
+            pool = list(prev["Q"]) + [e[0] for e in prev["E"]]
+            rng.shuffle(pool)
+            nq = rng.randint(1, max(1, len(pool) - 1)) if len(pool) > 1 else 1
+            q, e = pool[:nq], pool[nq:]
+            ev = [[v, rng.randrange(cards[v])] for v in e]
+            vev = []
+        elif steps and r < 0.6:
+            # same roles, other evidence states
+            prev = steps[-1]
+            q, ev, vev = list(prev["Q"]), [[v, rng.randrange(cards[v])] for v, _ in prev["E"]], []
+        elif steps and r < 0.75:
+            prev = rng.choice(steps)
+            q, ev, vev = list(prev["Q"]), [list(x) for x in prev["E"]], [list(x) for x in prev["vev"]]
+        else:
+            q, ev, vev = pick_query(rng, n, cards, True)
+        steps.append({"Q": q, "E": ev, "vev": vev, "eo": rng.choice(EOS), "joint": rng.random() < 0.6})
+    nodes = list(range(n))
+    rng.shuffle(nodes)
+    return {"kind": "session", "shape": shape, "n": n, "nodes": nodes, "edges": [list(e) for e in edges], "cards": cards,
+            "cpds": gen_cpds(rng, n, edges, cards), "nstyle": nstyle, "sstyle": rng.choice(["int", "str", "tuple", "mixed"]),
+            "nameseed": rng.randint(0, 10**9), "steps": steps, "oseed": rng.randint(0, 10**9), "hashseed": hashseed}
+
+
 def state_names(rng, card, style):
     if style == "int":
         l = list(range(card))
@@ -214,6 +256,10 @@ def cases(tier, seed):
     # networks built so that two evidence-reduced factors coincide (same scope, table and origin)
     for i in range(10 if tier == "quick" else 80):
         out.append(collapse_case(rng, hs[i % len(hs)]))
+    # sessions: ONE engine, several queries; consecutive queries often use the same node set with the
+    # query / evidence roles re-split, the same evidence variables in other states, or repeat earlier queries
+    for i in range(140 if tier == "quick" else 2000):
+        out.append(session_case(rng, hs[i % len(hs)]))
     # malformed elimination orders (rejection paths)
     for i in range(12 if tier == "quick" else 60):
         n = rng.choice([3, 4])
@@ -236,6 +282,14 @@ def cases(tier, seed):
 
 
 def shrink(case):
+    if case.get("kind") == "session":
+        st = case["steps"]
+        for i in range(len(st)):
+            if len(st) > 1:
+                c = dict(case)
+                c["steps"] = st[:i] + st[i + 1:]
+                yield c
+        return
     if case.get("kind") != "rand":
         return
     n = case["n"]
@@ -534,6 +588,26 @@ def run_case(case, drv):
         key = common.canon_key(["rand", case["nodes"], case["edges"], cards, case["cpds"], Q, E, vev, case["nstyle"],
                                 case["sstyle"]])
         return ok(nontrivial=nt and (len(case["edges"]) > 0 or len(E) > 0), key=key, tags=tags)
+    if kind == "session":
+        from pgmpy.inference import VariableElimination
+        rng = random.Random(case["oseed"])
+        ve = VariableElimination(m)
+        tags += ["shape=" + case["shape"], "steps=%d" % len(case["steps"])]
+        nt = 0
+        for k, st in enumerate(case["steps"]):
+            r = one_query(case, drv, m, nn, sn, st["Q"], st["E"], st["vev"], st["eo"], st["joint"], rng, tags, engine=ve)
+            if r == "excluded":
+                continue
+            if r is not None:
+                r["detail"]["step"] = k
+                r["detail"]["earlier_steps"] = case["steps"][:k]
+                return dict(r, kind="session:" + r["kind"], key=common.canon_key(case), tags=tags)
+            nt += 1
+        if set(repr(x) for x in ve.model.nodes()) != set(repr(x) for x in m.nodes()):
+            return bad("session:engine-model-not-restored", {"engine_nodes": repr(list(ve.model.nodes()))})
+        return ok(nontrivial=nt >= 2, key=common.canon_key(["session", case["nodes"], case["edges"], cards, case["cpds"],
+                                                            case["steps"], case["nstyle"], case["sstyle"]]),
+                  tags=tags + ["session answered=%d" % nt])
     if kind == "badorder":
         return run_badorder(case, drv, m, nn, sn, tags)
     if kind == "front":
